@@ -359,7 +359,7 @@ func init() {
 		Edit{m4, "leafIndex, leafIndex+1, LeavesPerSector, root)", "leafIndex, leafIndex+2, LeavesPerSector, root)"})
 	mut("C16", "v4 BuildFreeSectorsProof converts actions with one fewer sector", true, "forwarding|rhp/v4.BuildFreeSectorsProof",
 		Edit{m4, "convertFreeActions(freed, uint64(len(sectorRoots))), sectorRoots)", "convertFreeActions(freed, uint64(len(sectorRoots))-1), sectorRoots)"})
-	mut("C16", "v4 sectorAccumulator.hasNodeAtHeight diverges from the v2 copy", true, "sibling|sectorAccumulator.hasNodeAtHeight",
+	mut("C16", "v4 sectorAccumulator.hasNodeAtHeight diverges from the v2 copy", true, "sibling|sectorAccumulator:implementation",
 		Edit{m4, "return (sa.numLeaves>>2)&(1<<(len(sa.trees)-i-1)) != 0", "return (sa.numLeaves>>2)&(1<<(len(sa.trees)-i)) != 0"})
 	mut("C16", "SumPair hashes with the leaf prefix", true, "hash-variants|SumPair:prefix",
 		Edit{bl, "unsafe.Pointer(&[2][32]byte{left, right})), nodeHashPrefix)", "unsafe.Pointer(&[2][32]byte{left, right})), leafHashPrefix)"})
